@@ -699,12 +699,9 @@ reprocess:
 			break;
 			}
 		case '%':
-			if (location + 1 > max_len) {
-				return max_len;
-			}
-			serialize[location++] = '%';
-                        sformat_length = 0;
-                        sformat_precision = QB_FALSE;
+			/* "%%" has no argument; step over the second '%' so that
+			 * it is not taken for the start of a directive */
+			format++;
 			break;
 
 		}
